@@ -63,6 +63,11 @@ def _raw(spec):
                 n = int(np.sum(labels == k))
                 a[idx][labels == k] = _cnormal(rng, (n, D)) @ A.T
             a[idx] *= np.exp(rng.uniform(-1, 1, size=(N, 1)))
+            dr = float(spec.get('dynamic_range', 0))
+            if dr:
+                # quiet and loud frames in one recording (directional models
+                # only see the direction)
+                a[idx] *= 10.0 ** rng.uniform(-dr, 0, size=(N, 1))
     elif kind == 'rclusters':
         *lead, N, D = shape
         K = int(spec['K'])
@@ -77,6 +82,9 @@ def _raw(spec):
                 m = rng.standard_normal(D) * sep
                 n = int(np.sum(labels == k))
                 a[idx][labels == k] = rng.standard_normal((n, D)) @ A.T + m
+            if spec.get('order') == 'sorted':
+                # concatenated segments instead of shuffled frames
+                a[idx] = a[idx][np.argsort(labels, kind='stable')]
         a = a * float(spec.get('scale', 1.0))
     elif kind == 'affiliation':
         # strictly positive, sums to one over axis -2
@@ -136,6 +144,18 @@ def _raw(spec):
         A = rng.standard_normal(shape[:-2] + (D, D + 2))
         a = A @ np.swapaxes(A, -1, -2) / (D + 2) \
             + float(spec.get('load', 0.05)) * np.eye(D)
+    elif kind == 'hsingular':
+        # Hermitian PSD stack with some exactly singular members (a silent
+        # bin: all zeros; a rank-one bin)
+        D = shape[-1]
+        A = _cnormal(rng, shape[:-2] + (D, D + 2))
+        a = A @ np.swapaxes(A.conj(), -1, -2) / (D + 2) + 0.05 * np.eye(D)
+        flat = a.reshape((-1, D, D))
+        flat[0] = 0.0
+        if flat.shape[0] > 2:
+            v = _cnormal(rng, (D, 1))
+            flat[-1] = v @ v.conj().T
+        a = flat.reshape(shape)
     elif kind == 'hrank1':
         D = shape[-1]
         v = _cnormal(rng, shape[:-2] + (D, 1))
